@@ -17,7 +17,7 @@ ASSUMPTIONS = [
     'acceptance is exercised through the Rock Ridge facade (the only facade that derives ISO9660 identifiers)',
 ]
 
-ALPHA = ['a', 'A', 'z', '1', '_', '.', '-', ' ', 'ß', 'ŉ', 'ﬁ', 'ı', 'İ', 'é', '中', '𝒜', '\x01', '́', ';']
+ALPHA = ['a', 'A', 'z', '1', '_', '.', '-', ' ', 'ß', 'ŉ', 'ﬁ', 'ı', 'İ', 'é', '中', '𝒜', '\x01', '\n', '\x7f', '́', ';']
 
 
 def family_strings():
